@@ -67,6 +67,7 @@ type panicState struct {
 	val       Value
 	recovered bool
 	msg       string
+	where     string
 }
 
 const (
@@ -329,6 +330,16 @@ func (e *Exec) stepSafe(g *Goroutine) {
 			}
 			if ps, ok := r.(goPanicSignal); ok {
 				g.panic = ps.st
+				if debugStacks {
+					for i := len(g.frames) - 1; i >= 0 && i > len(g.frames)-12; i-- {
+						fr := g.frames[i]
+						pos := ""
+						if fr.ip < len(fr.block.Instrs) {
+							pos = e.P.prog.Fset.Position(fr.block.Instrs[fr.ip].Pos()).String()
+						}
+						ps.st.where += fmt.Sprintf("   #%d %s %s\n", i, fr.fn, pos)
+					}
+				}
 				return
 			}
 			panic(r)
@@ -373,6 +384,9 @@ func (e *Exec) unwindStep(g *Goroutine) {
 }
 
 func (e *Exec) uncaughtPanic(g *Goroutine) {
+	if debugStacks && g.panic != nil {
+		fmt.Printf("uncaught panic %s; raised at:\n%s", g.panic.msg, g.panic.where)
+	}
 	msg := "panic"
 	if g.panic != nil {
 		msg = g.panic.msg
